@@ -49,6 +49,8 @@ class BuiltinsMixin:
 
     def bi_len(self, s, args, kw, node):
         v = args[0]
+        if v.meta and v.meta.get("empty") and v.t is None:
+            return [(s, self.lift(0))]
         if v.is_py:
             return [(s, self.lift(len(v.t)))]
         if v.ty.kind in ("str", "seq"):
@@ -208,11 +210,12 @@ class BuiltinsMixin:
             return [(s, py(list(reversed(v.t))))]
         if v.ty.kind == "seq":
             f = self.uf("revseq_" + self.reg._sname(v.ty), [self.reg.sort(v.ty)], self.reg.sort(v.ty))
-            r = Val(v.ty, f(v.t))
+            r = Val(v.ty, f(v.t), {"reversed_of": v})
             n = z3.Length(v.t)
             j = z3.Int(fresh_name("rj"))
             self.axioms.append(z3.Length(r.t) == n)
-            self.axioms.append(z3.ForAll([j], z3.Implies(z3.And(0 <= j, j < n), r.t[j] == v.t[n - 1 - j]), patterns=[r.t[j]]))
+            self.axioms.append(z3.ForAll([j], z3.Implies(z3.And(0 <= j, j < n), r.t[j] == v.t[n - 1 - j])))
+            self.axioms.append(self.elems_of(r) == self.elems_of(v))     # same elements
             return [(s, r)]
         raise Unsupported(f"reversed of {v.ty}")
 
@@ -349,7 +352,7 @@ class BuiltinsMixin:
             j = z3.Int(fresh_name("mj"))
             self.axioms.append(z3.Length(r.t) == z3.Length(v.t))
             body = z3.substitute(img.t, (x, v.t[j]))
-            self.axioms.append(z3.ForAll([j], z3.Implies(z3.And(0 <= j, j < z3.Length(v.t)), r.t[j] == body), patterns=[r.t[j]]))
+            self.axioms.append(z3.ForAll([j], z3.Implies(z3.And(0 <= j, j < z3.Length(v.t)), r.t[j] == body)))
             return r
         r = self.fresh(TSet(img.ty), "mapped")
         y = z3.Const(fresh_name("my"), self.reg.sort(img.ty))
@@ -567,7 +570,7 @@ class BuiltinsMixin:
         self.axioms.append(z3.Implies(n == 1, res == seq.t[0]))
         if z3.is_string_value(sep.t) and sep.t.as_string() != "":
             self.axioms.append((res == z3.StringVal("")) == z3.Or(n == 0, z3.And(n == 1, seq.t[0] == z3.StringVal(""))))
-        self.axioms.append(z3.ForAll([j], z3.Implies(z3.And(0 <= j, j < n), z3.Contains(res, seq.t[j])), patterns=[seq.t[j]]))
+        self.axioms.append(z3.ForAll([j], z3.Implies(z3.And(0 <= j, j < n), z3.Contains(res, seq.t[j]))))
         # element-set view: a non-empty element makes the result non-empty; no element at all makes it empty
         el = self.elems_of(seq)
         x = z3.String(fresh_name("jx"))
@@ -1044,7 +1047,7 @@ class BuiltinsMixin:
             r = self.fresh(TSeq(v.ty), "lcomp")
             j = inst.bound[0]
             self.axioms.append(z3.Length(r.t) == z3.Length(src.t))
-            self.axioms.append(z3.ForAll([j], z3.Implies(inst.guard, r.t[j] == v.t), patterns=[r.t[j]]))
+            self.axioms.append(z3.ForAll([j], z3.Implies(inst.guard, r.t[j] == v.t)))
             return r
         # general case: order/multiplicity abstract, element set exact
         setv = self.comp_set(elt, generators, st)
